@@ -389,8 +389,7 @@ class UAIWriter(object):
         >>> writer.get_domain()
         """
         if isinstance(self.model, BayesianNetwork):
-            cpds = self.model.get_cpds()
-            cpds.sort(key=lambda x: x.variable)
+            cpds = sorted(self.model.get_cpds(), key=lambda x: x.variable)
             domain = {}
             for cpd in cpds:
                 domain[cpd.variable] = str(cpd.variable_card)
@@ -418,8 +417,7 @@ class UAIWriter(object):
         >>> writer.get_functions()
         """
         if isinstance(self.model, BayesianNetwork):
-            cpds = self.model.get_cpds()
-            cpds.sort(key=lambda x: x.variable)
+            cpds = sorted(self.model.get_cpds(), key=lambda x: x.variable)
             variables = sorted(self.domain.items(), key=lambda x: (x[1], x[0]))
             functions = []
             for cpd in cpds:
@@ -458,8 +456,7 @@ class UAIWriter(object):
         >>> writer.get_tables()
         """
         if isinstance(self.model, BayesianNetwork):
-            cpds = self.model.get_cpds()
-            cpds.sort(key=lambda x: x.variable)
+            cpds = sorted(self.model.get_cpds(), key=lambda x: x.variable)
             tables = []
             for cpd in cpds:
                 values = list(
